@@ -3,6 +3,7 @@
 package storage
 
 import (
+	"bytes"
 	"fmt"
 	"math/big"
 	"strings"
@@ -36,7 +37,41 @@ func vpC05Ledger(t *rapid.T, tag string) *vpLedger {
 			l.StepAccept(t, true)
 		}
 	}
+	if rapid.IntRange(0, 2).Draw(t, "with_drained_asset") == 0 {
+		vpC05Drain(t, l)
+	}
 	return l
+}
+
+// vpC05Drain withdraws everything of one non-XIN asset, so that the ledger
+// knows the asset while its supply is exactly zero.
+func vpC05Drain(t *rapid.T, l *vpLedger) {
+	a := &l.Assets[rapid.IntRange(1, len(l.Assets)-1).Draw(t, "drain_asset")]
+	all := l.Unspent(&a.Id, false, false)
+	free := l.Unspent(&a.Id, true, true)
+	if len(free) == 0 || len(free) != len(all) || len(free) > 200 || l.pendingDeposits(a.Id).Sign() != 0 {
+		return
+	}
+	total := new(big.Int)
+	var signers [][]int
+	for _, u := range free {
+		if u.Type != common.OutputTypeScript {
+			return
+		}
+		total.Add(total, vpLBig(u.Amount))
+		signers = append(signers, vpLRange(u.threshold()))
+	}
+	l.Seq++
+	tx := l.BuildSpend(a.Id, free, []vpLOut{{Type: common.OutputTypeWithdrawalSubmit, Amount: vpLInt(total), Withdraw: &common.WithdrawalData{Address: "drain" + fmt.Sprint(l.Seq), Tag: ""}}}, nil, nil)
+	ver := l.SignMaps(tx, free, signers)
+	if err := l.Admit(ver, l.Tick(1000), "submit"); err != nil {
+		t.Fatalf("withdrawal of the whole supply of %s rejected: %v", a.Name, err)
+	}
+	l.FinalizeOne(t, []crypto.Hash{ver.PayloadHash()})
+	if l.total(a.Id).Sign() != 0 {
+		t.Fatalf("drained asset %s still has supply %s in the model", a.Name, l.total(a.Id))
+	}
+	l.Drained = append(l.Drained, a.Id)
 }
 
 var vpC05OutTypes = []uint8{common.OutputTypeScript, common.OutputTypeScript, common.OutputTypeWithdrawalSubmit, common.OutputTypeNodePledge,
@@ -352,7 +387,20 @@ func vpC05Template(t *rapid.T, l *vpLedger) (*common.VersionedTransaction, []str
 				return nil, append(classes, "template-empty")
 			}
 			outs = []vpLOut{{Type: common.OutputTypeNodeCancel, Amount: fee}, {Type: common.OutputTypeScript, Owners: []int{0}, Threshold: 1, Amount: in.Amount.Sub(fee)}}
-			extra = append(extra, l.Accts[0].PrivateViewKey[:]...)
+			// third word: the view key the cancel change is checked with; the
+			// sender chooses these 32 bytes freely
+			third := l.Accts[0].PrivateViewKey[:]
+			switch rapid.IntRange(0, 5).Draw(t, "cancel_third") {
+			case 0:
+				third = bytes.Repeat([]byte{0xff}, 32)
+				classes = append(classes, "cancel-third-word-noncanonical")
+			case 1: // the group order: smallest non-canonical scalar
+				third = []byte{0xed, 0xd3, 0xf5, 0x5c, 0x1a, 0x63, 0x12, 0x58, 0xd6, 0x9c, 0xf7, 0xa2, 0xde, 0xf9, 0xde, 0x14, 0, 0, 0, 0, 0, 0, 0, 0, 0, 0, 0, 0, 0, 0, 0, 0x10}
+				classes = append(classes, "cancel-third-word-noncanonical")
+			case 2:
+				third = make([]byte, 32)
+			}
+			extra = append(extra, third...)
 		case 9:
 			outs = []vpLOut{{Type: common.OutputTypeCustodianUpdateNodes, Owners: []int{0}, Threshold: 64, Amount: in.Amount}}
 			extra = append([]byte{}, l.GenesisTxs[len(l.GenesisTxs)-1].Extra...)
@@ -410,6 +458,14 @@ func vpC05Template(t *rapid.T, l *vpLedger) (*common.VersionedTransaction, []str
 		signed = &l.SignMaps(tx, p.Ins, p.Signers).SignedTransaction
 	case 7: // deposit
 		a := &l.Assets[rapid.IntRange(0, 2).Draw(t, "tmpl_dep_asset")]
+		if len(l.Drained) > 0 && rapid.Bool().Draw(t, "tmpl_dep_drained") {
+			for i := range l.Assets {
+				if l.Assets[i].Id == l.Drained[0] {
+					a = &l.Assets[i]
+					classes = append(classes, "deposit-of-drained-asset")
+				}
+			}
+		}
 		l.Seq++
 		v := l.BuildDeposit(a, common.NewInteger(1), vpLOut{Owners: []int{0}, Threshold: 1}, fmt.Sprintf("0xt%d", l.Seq), 0, nil)
 		signed = &v.SignedTransaction
@@ -598,7 +654,7 @@ func vpC05Reached(err error) string {
 
 func TestVP_C05_never_panics(t *testing.T) {
 	c := kit.New(t, "C05", "rapid: 30% free-form and 70% template-derived (valid transfer/pledge/accept/cancel/remove/submit/claim/deposit/mint/custodian-update shapes with 0..3 structural mutations, re-signed) version-5 transactions (free-form: 1..4 inputs: live outputs of every stored type incl. pledge/accept/remove/claim/custodian, spent/missing refs, deposit/mint/genesis data also riding on ordinary refs; 1..4 outputs of every type byte incl. unknown ones, amounts 0..2^520000, keys valid/invalid/reused, scripts valid/malformed, withdrawal data, storage-output shape; extras 0..5000 bytes incl. real node extras; references real/unknown; authorization: none, aggregate with arbitrary signers, per-input maps honest or misplaced with missing/surplus maps), round-tripped through Marshal/Unmarshal so only decodable inputs are judged, validated at drawn snapshot times >= genesis custodian time with fork on/off; oracle: Validate returns (no panic); non-trivial = reached validateInputs or later (error class 'deep' or accepted); distinct by full encoding hash")
-	c.Require("deep", "accepted", "early", "in-utxo-0x0", "in-utxo-0xa4", "in-utxo-0xa3", "in-utxo-0xa6", "in-utxo-0xa9", "in-utxo-0xb1", "in-deposit", "in-mint", "auth-none", "auth-aggregate", "auth-maps-short", "storage-output", "type-9", "type-6", "type-7", "type-18", "type-19", "type-5", "type-3", "template-3", "template-9", "mut-1", "mut-2", "mut-8", "mut-12", "sigmap-reshaped", "node-sig-index-nonzero")
+	c.Require("deep", "accepted", "early", "in-utxo-0x0", "in-utxo-0xa4", "in-utxo-0xa3", "in-utxo-0xa6", "in-utxo-0xa9", "in-utxo-0xb1", "in-deposit", "in-mint", "auth-none", "auth-aggregate", "auth-maps-short", "storage-output", "type-9", "type-6", "type-7", "type-18", "type-19", "type-5", "type-3", "template-3", "template-9", "mut-1", "mut-2", "mut-8", "mut-12", "sigmap-reshaped", "node-sig-index-nonzero", "cancel-third-word-noncanonical", "deposit-of-drained-asset")
 	kit.SetChecks(kit.N(120, 8000))
 	rapid.Check(t, func(t *rapid.T) {
 		l := vpC05Ledger(t, "c05")
